@@ -79,7 +79,9 @@ def src(v):
     if isinstance(v, bool):
         return "TRUE" if v else "FALSE"
     if isinstance(v, Date):
-        raise TypeError("dates have no literal")
+        import datetime
+        d = datetime.datetime(1900, 1, 1) + datetime.timedelta(seconds=int(v))
+        return "date('%04d%02d%02d%02d%02d%02d')" % (d.year, d.month, d.day, d.hour, d.minute, d.second)
     if isinstance(v, int):
         return str(v) if v >= 0 else "(-%d)" % -v
     if isinstance(v, float):
@@ -89,9 +91,9 @@ def src(v):
     if isinstance(v, str):
         return str_src(v)
     if isinstance(v, SetV):
-        return "<<" + ", ".join(src(x) for x in v) + ">>"
+        return "<< " + ", ".join(src(x) for x in v) + " >>" if v else "<<>>"
     if isinstance(v, MapV):
-        return "<<<" + ", ".join("%s => %s" % (src(k), src(x)) for k, x in v) + ">>>" if v else "<<<>>>"
+        return "<<< " + ", ".join("%s => %s" % (src(k), src(x)) for k, x in v) + " >>>" if v else "<<<>>>"
     if isinstance(v, (list, tuple)):
         return "[" + ", ".join(src(x) for x in v) + "]"
     raise TypeError(v)
@@ -153,7 +155,9 @@ def decode_dval(xs, i=0):
         body = "".join(" %d" % c for c in xs[i + 2:i + 2 + n])
         return ("(s" if t == 4 else "(pat") + body + ")", i + 2 + n
     if t == 5:
-        return "(dateT %d)" % xs[i + 1], i + 2
+        import datetime
+        d = datetime.datetime(1900, 1, 1) + datetime.timedelta(seconds=int(xs[i + 1]))
+        return "(date %d %d %d %d %d %d %d)" % (d.year, d.month, d.day, d.hour, d.minute, d.second, d.microsecond), i + 2
     if t in (7, 8):
         n = xs[i + 1]
         j = i + 2
@@ -206,3 +210,19 @@ def impl_outcome(out):
     if out[0] == "host":
         return ("host", out[1])
     return tuple(out)
+
+
+def src_safe(v):
+    """source text where one exists, else a readable description (dates have no literal)"""
+    try:
+        return src(v)
+    except Exception:
+        if isinstance(v, Date):
+            return "date#%d" % int(v)
+        if isinstance(v, SetV):
+            return "<<" + ", ".join(src_safe(x) for x in v) + ">>"
+        if isinstance(v, MapV):
+            return "<<<" + ", ".join("%s => %s" % (src_safe(k), src_safe(x)) for k, x in v) + ">>>"
+        if isinstance(v, (list, tuple)):
+            return "[" + ", ".join(src_safe(x) for x in v) + "]"
+        return repr(v)
